@@ -29,6 +29,7 @@ def commands : List (String × (String → String)) := [
   ("legal", legal),
   ("nest", nest),
   ("tables", tables),
+  ("coherent", coherent),
   ("validate", validate),
   ("json", json),
   ("promela", promela),
